@@ -1,6 +1,7 @@
 // Shared support of the op servers: registry, op-line parsing, canonical printing,
 // per-line observation of UB traps (SIGILL/SIGFPE/SIGTRAP -> siglongjmp).
 #pragma once
+#include <cassert>
 #include <mdspan/mdspan.hpp>
 #include <cstdio>
 #include <cstdlib>
